@@ -148,6 +148,7 @@ class Engine:
     self.stats = dict(paths=0, feas_checks=0)
     self.abstracted = set()
     self.assumed_contracts = set()
+    self.called_contracts = set()      # targets of every callee contract applied (cli: dependency closure of a property)
     self.used_theories = set()
     self.cur = None          # contract being verified
     self.cur_fn = None
@@ -1093,6 +1094,7 @@ class Engine:
       env["self"] = selfv
     if c.assumed:
       self.assumed_contracts.add(c.target)
+    self.called_contracts.add(c.target)
     if st.nofresh:
       if c.returns_expr is None:
         raise Unsupported(f"call of {c.qual} inside a comprehension/quantifier needs a functional contract (returns_expr)")
